@@ -96,7 +96,7 @@ def run_tlc(module, cfg, env=None, workers=8, timeout=600, heap="6g", metadir=No
     if metadir is None:
         metadir = os.path.join(WORK, "tlc-%d-%d" % (os.getpid(), int(time.time() * 1000) % 100000000))
     os.makedirs(metadir, exist_ok=True)
-    cmd = ["java", "-XX:+UseParallelGC", "-XX:ParallelGCThreads=4", "-Xss1g", "-Xmx" + heap, "-cp", JAR,
+    cmd = ["java", "-XX:+UseParallelGC", "-XX:ParallelGCThreads=4", "-Xss256m", "-Xmn256m", "-Xmx" + heap, "-cp", JAR,
            "tlc2.TLC", "-workers", str(workers), "-fpmem", "0.05", "-metadir", metadir, "-cleanup",
            "-noGenerateSpecTE", "-config", cfg]
     if simulate:
